@@ -147,6 +147,9 @@ def run(ctx):
                        "limb arithmetic on every n <= %s" % ("1970-01-01..2500-12-31, 400-year jumps, 9970-01-01..9999-12-31" if q
                                                               else "EVERY day number 0..2932896 (1970-01-01..9999-12-31)",
                                                               "10^5" if q else "10^6"))
+    # non-vacuity: with the Julian leap rule TLC must find the machine / closed-form disagreement on 2100-02-29
+    nv = ctx.tlc("Fmt", "MC_Fmt_julian.cfg", workers=2, expect_violation=True, timeout=300)
+    ctx.extra["nonvacuity"] = "LeapRule=julian yields: " + str(nv.violation)
     # scenarios
     g = ctx.tlc("FmtGen", "Gen_Fmt.cfg" if q else "Gen_Fmt_deep.cfg", workers=1, env={"VERIF_SEED": ctx.seed}, timeout=600)
     scns = list(g.lines)
